@@ -208,7 +208,7 @@ class Scheduler:
     raise Abort()
 
   # ---- running ---------------------------------------------------------------
-  def run(self, body, wall_timeout=60.0):
+  def run(self, body, wall_timeout=900.0):
     main = self.new_thread(body, 'main')
     main.state = RUN
     self.current = main
@@ -227,7 +227,7 @@ class Scheduler:
     for t in self.threads:
       if t.real.ident is None:
         continue
-      t.real.join(10.0)
+      t.real.join(120.0)
       if t.real.is_alive():
         stuck.append(t.name)
     res = self.res
